@@ -409,7 +409,9 @@ def locate (O : Oracles) : FieldDecl → PyVal → Loc
   | .boolean, v => locScalar .boolean v
   | .enumLit vs, v => locScalar (.enumLit vs) v
   | .enumCls c ns, v => locScalar (.enumCls c ns) v
-  | .struct _ _ _, _ => { shape := .gotLast }
+  -- ClassReference: `Expected <Structure: …>; Got <v>`; inline StructureReference (since /repo 3e97bbb):
+  -- `<name>: <the embedded class's own message>` resp. `<name>: Expected a dictionary or Structure; got <v>`
+  | .struct c _ _, _ => if c.inline then { shape := .plain } else { shape := .gotLast }
   | .anyOf _, _ => {}
   | .oneOf _, _ => {}
   | .allOf _, _ => {}
@@ -441,8 +443,8 @@ def isFlatDecl : FieldDecl → Bool
   | f => isScalarDecl f
 
 mutual
-/-- the extended domain of the path model: scalars, class references (`ClassReference`, not the
-    inline `StructureReference`) and collections of these at ANY nesting depth -/
+/-- the extended domain of the path model: scalars, nested structures (`ClassReference` and, since
+    /repo 3e97bbb, the inline `StructureReference`) and collections of these at ANY nesting depth -/
 def isPathDecl : FieldDecl → Bool
   | .number _ | .integer _ | .float _ | .string _ _ _ | .boolean | .enumLit _ | .enumCls _ _ => true
   | .seqAny _ _ | .setAny _ _ | .mapAny _ => true
@@ -452,7 +454,7 @@ def isPathDecl : FieldDecl → Bool
   | .seqPos _ fs _ _ => allPathDecl fs
   | .tuplePos fs _ => allPathDecl fs
   | .mapOf kf vf _ => isPathDecl kf && isPathDecl vf
-  | .struct c _ _ => !c.inline
+  | .struct _ _ _ => true
   | _ => false
 termination_by structural f => f
 def allPathDecl : List FieldDecl → Bool
@@ -621,8 +623,8 @@ The scratch names are an input of the model (observed by the harness just before
 
 inductive P1Kind where
   | named | inner | foreign
-  /-- a dict document of a top-level class-reference field: the nested structure's own error is
-      passed through unchanged (its path is the NESTED field's), nothing of the outer field is added -/
+  /-- (former site kind, kept so that a regression has a name) a dict document of a top-level
+      class-reference field whose nested error is passed through without the outer field's name -/
   | nested
 deriving Repr, DecidableEq, Inhabited
 
@@ -760,7 +762,9 @@ and the position of the first rejected element — independent of every scratch 
   * StructureReference, AnyOf / OneOf / AllOf / NotField, NoneField, "not list-like", "not a dict",
     "too short", `set(values)`: the branch's own `<name>: Got …` (`<name>: Expected a dictionary; Got …`
     for a class reference given a non-dict);
-  * a class reference given a dict: NOTHING — the nested structure's error passes through unchanged;
+  * a class reference given a dict: since /repo 8de2ad2 the nested structure's error is kept if it starts with
+    `<name>:` / `<name>_`, else prefixed `<name>: ` (before: passed through unchanged, the former finding
+    `no-path:nested-structure:deser-classref`);
   * Number / String / Boolean: the field's own scratch `_name` (nothing guaranteed here; the wrappers
     above supply the path). -/
 
@@ -831,7 +835,7 @@ def dHead (O : Oracles) (opts : DeserOpts) : FieldDecl → Text → PyVal → Te
   | .struct c _ _, name, v =>
     if c.inline then name ++ sColonGot
     else (match v with
-      | .dict _ => []
+      | .dict _ => name      -- since /repo 8de2ad2: kept if it starts with `<name>:` / `<name>_`, else prefixed `<name>: `
       | _ => name ++ sExpDict)
   | .enumLit _, name, _ => name
   | .enumCls _ _, name, _ => name
@@ -877,10 +881,7 @@ def p1SiteD (O : Oracles) (opts : DeserOpts) (ign : Bool) (scr : List (Option St
   if isFlatDecl f then p1Site O scr name f v
   else match deser O opts ign f v with
     | .ok _ => none
-    | .error e =>
-      if isClassRef f && isDictVal v
-      then some ⟨name, .nested, none, e⟩
-      else some ⟨name, .named, some (dHead O opts f name.toList v), e⟩
+    | .error e => some ⟨name, .named, some (dHead O opts f name.toList v), e⟩
 
 def p1SitesD (O : Oracles) (opts : DeserOpts) (ign : Bool) (scr : List (String × List (Option String)))
     (doc : List (String × PyVal)) (fields : List (String × FieldDecl)) : List P1Site :=
@@ -927,6 +928,55 @@ def P1Site.namesOwnField (s : P1Site) : Bool :=
   | some h => (dropPre s.top.toList h).isSome
   | none => false
 
+
+/-! ### typedpy's problem texts
+
+Every problem text of a constructor rejection (fields/numbers.py, strings.py, enum.py, fields.py,
+collections_impl.py, array.py, deque_field.py, tuple_field.py, set_field.py, sized.py, map_field.py,
+structures.py TypedField) begins `Expected ` or `Does not match regular expression: `. -/
+
+def sDoesNotMatch : Text := "Does not match regular expression: ".toList
+
+def startsWithT (p t : Text) : Bool := (dropPre p t).isSome
+
+/-- the template class of typedpy's problem texts -/
+def isTypedpyProblem (p : Text) : Bool := startsWithT sExpected p || startsWithT sDoesNotMatch p
+
+/-- the parameter-free templates -/
+def fixedProblems : List Text :=
+  ["Expected a number", "Expected a positive number", "Expected a negative number or 0",
+   "Expected a negative number", "Expected a positive number or 0", "Expected a string",
+   "Expected unique items", "Expected a dict", "Expected <class 'int'>", "Expected <class 'float'>",
+   "Expected <class 'bool'>", "Expected <class 'str'>", "Expected <class 'list'>", "Expected <class 'set'>",
+   "Expected <class 'tuple'>", "Expected <class 'collections.deque'>", "Expected <class 'dict'>"].map String.toList
+
+/-- some occurrence of `pat` in `t` is followed by a typedpy problem -/
+def problemAfter (pat : Text) : Text → Bool
+  | [] => false
+  | c :: cs => (match dropPre pat (c :: cs) with
+      | some r => isTypedpyProblem r
+      | none => false) || problemAfter pat cs
+
+/-- some occurrence of `pat` in `t` is followed by a non-empty text -/
+def nonEmptyAfter (pat : Text) : Text → Bool
+  | [] => false
+  | c :: cs => (match dropPre pat (c :: cs) with
+      | some r => !r.isEmpty
+      | none => false) || nonEmptyAfter pat cs
+
+/-- the side condition of the render → parse theorems (`goodTexts`), read off a real message body:
+    a non-empty problem where the shape puts it, not starting with `G` (`;`) for the two shapes that
+    do not begin with `Got ` -/
+def bodyWellFormed : Shape → Text → Bool
+  | .gotFirst, rest => nonEmptyAfter sSemiSp rest
+  | .gotLast, rest => !rest.isEmpty && rest.head? != some 'G'
+  | .plain, rest => !rest.isEmpty && rest.head? != some 'G' && rest.head? != some ';'
+
+/-- the text after `<path>: ` has the model's shape around a typedpy problem text -/
+def bodyHasTemplate : Shape → Text → Bool
+  | .gotFirst, rest => problemAfter sSemiSp rest
+  | .gotLast, rest => isTypedpyProblem rest
+  | .plain, rest => isTypedpyProblem rest
 
 /-! ### class names typedpy itself produces
 
